@@ -25,10 +25,7 @@ class EngineStream(Stream):
             yield ES.gen_engine_case(rng, kind)
 
     def run_impl(self, case):
-        obs = ES.run_engines(case)
-        if obs["max_backlog"] >= 50:
-            raise RuntimeError("harness bug: a generated schedule exceeded the receiver capacity")
-        return obs
+        return ES.run_engines(case)
 
     def to_coq(self, case, obs):
         return ES.case_term(case, obs)
@@ -62,7 +59,11 @@ class EngineStream(Stream):
         if not ES.is_grid(case):
             return []          # the property is about resampled (grid) inputs
         outs = [(o[0], o[1]) for o in obs["out"]]
-        return [{"what": p, "finding": None} for p in ES.judge_engine_outputs(case, case["eng"][0], outs)]
+        probs = ES.judge_engine_outputs(case, case["eng"][0], outs)
+        if obs["max_backlog"] >= 50:
+            probs.append("backlog: an input receiver filled up (50) although the schedule keeps every backlog <= 40 "
+                         "for an evaluator that consumes its inputs in lock-step")
+        return [{"what": p, "finding": None} for p in probs]
 
 
 def f10_trigger(case):
@@ -89,10 +90,7 @@ class ThreePhaseStream(Stream):
             yield ES.gen_three_case(rng, "three_equal_t0" if r < 0.25 else "three_gaps" if r < 0.45 else "three_any")
 
     def run_impl(self, case):
-        obs = ES.run_engines(case)
-        if obs["max_backlog"] >= 50:
-            raise RuntimeError("harness bug: a generated schedule exceeded the receiver capacity")
-        return obs
+        return ES.run_engines(case)
 
     def to_coq(self, case, obs):
         return ES.case_term(case, obs)
@@ -116,6 +114,10 @@ class ThreePhaseStream(Stream):
     def oracle(self, case, obs):
         probs = []
         d = case["d"]
+        # a per-phase engine with several inputs is only promised anything on grid inputs
+        for ids in case["eng"]:
+            if len(ids) > 1 and not ES.is_grid({**case, "streams": [case["streams"][g] for g in ids]}):
+                return []
         for o in obs["out"]:
             tick = o[0]
             for p, ids in enumerate(case["eng"]):
@@ -144,6 +146,8 @@ class ThreePhaseStream(Stream):
                 want = list(range(t0, end + 1, d))
                 if ticks != want and not probs:
                     probs.append(f"timeline: emitted 3-phase ticks {ticks[:8]}... differ from the common ticks {want[:8]}... of all inputs")
+        if obs["max_backlog"] >= 50:
+            probs.append("backlog: an input receiver filled up (50) although the schedule keeps every backlog <= 40")
         fid = "C06-F10-3phase-unaligned" if f10_trigger(case) else None
         return [{"what": p, "finding": fid} for p in probs]
 
